@@ -22,10 +22,10 @@ B(o, a, b) == [k |-> "b", o |-> o, a |-> a, b |-> b]
 Ln(n, s) == [n |-> n, s |-> s]
 Prt(e) == [op |-> "PRINT", e |-> e, col |-> TRUE]
 EndS == [op |-> "END", col |-> TRUE]
-P(lines, tag) == [lines |-> lines, vars |-> <<"I", "J", "A", "K%">>, ints |-> <<"K%">>,
+P(lines, tag) == [lines |-> lines, vars |-> <<"I", "J", "A", "K%">>, ints |-> <<"K%", "FNK%">>,
                   tag |-> [kind |-> tag.kind, expect |-> tag.expect, endk |-> "end", code |-> 0, line |-> 0]]
 \* programs that are expected to stop with an error (code, line)
-PE(lines, tag) == [lines |-> lines, vars |-> <<"I", "J", "A", "K%">>, ints |-> <<"K%">>, tag |-> tag]
+PE(lines, tag) == [lines |-> lines, vars |-> <<"I", "J", "A", "K%">>, ints |-> <<"K%", "FNK%">>, tag |-> tag]
 Let(v, e) == [op |-> "LET", v |-> v, e |-> e, col |-> TRUE]
 Op(o) == [op |-> o, col |-> TRUE]
 
@@ -189,4 +189,72 @@ TrapProg(c1, c2, h, two, er) ==
        [kind |-> "trap", expect |-> <<>>, endk |-> "end", code |-> 0, line |-> 0])
 TrapFamily == {TrapProg(c1, c2, h, two, er) : c1 \in {"ON", "OFF", "STOP"}, c2 \in {"ON", "OFF", "STOP"},
                                               h \in {"none", "ON", "OFF", "STOP"}, two \in BOOLEAN, er \in BOOLEAN}
+(* ---------------- C20: DEF FN leaves the caller's variables alone ---------------- *)
+DefFn(f, ps, e) == [op |-> "DEFFN", f |-> f, ps |-> ps, e |-> e, col |-> TRUE]
+Call(f, args) == [k |-> "fn", f |-> f, args |-> args]
+\* variant v, argument x: the definitions, the call, and the declared outcome <<"val", n>> or <<"err", code>>
+FnDefs(v) == CASE v = 1 -> <<DefFn("FNA", <<"A">>, V("A"))>>
+               [] v = 2 -> <<DefFn("FNA", <<"A">>, B("+", B("*", V("A"), C(2)), V("K%")))>>
+               [] v = 3 -> <<DefFn("FNA", <<"A", "K%">>, B("+", V("A"), V("K%")))>>
+               [] v = 4 -> <<DefFn("FNK%", <<"A">>, B("+", V("A"), C(32767)))>>
+               [] v = 5 -> <<DefFn("FNR", <<"A">>, B("+", Call("FNR", <<V("A")>>), C(1)))>>
+               [] v = 6 -> <<>>
+               [] v = 7 -> <<DefFn("FNB", <<"A">>, B("+", V("A"), C(1))), DefFn("FNA", <<"A">>, B("*", Call("FNB", <<B("*", V("A"), C(2))>>), C(10)))>>
+               [] v = 8 -> <<DefFn("FNA", <<"A">>, V("A"))>>
+FnCall(v, x) == CASE v \in {1, 2, 7} -> Call("FNA", <<C(x)>>)
+                  [] v = 3 -> Call("FNA", <<C(1), C(x)>>)
+                  [] v = 4 -> Call("FNK%", <<C(x)>>)
+                  [] v = 5 -> Call("FNR", <<C(x)>>)
+                  [] v = 6 -> Call("FNZ", <<C(x)>>)
+                  [] v = 8 -> Call("FNA", <<B("+", V("A"), C(x))>>)      \* the argument mentions the caller's A (= 5)
+FnOutcome(v, x) == CASE v = 1 -> <<"val", x>>
+                     [] v = 2 -> <<"val", 2 * x + 7>>
+                     [] v = 3 -> IF x > 32767 \/ x < -32768 THEN <<"err", 6>> ELSE <<"val", 1 + x>>
+                     [] v = 4 -> IF x + 32767 > 32767 THEN <<"err", 6>> ELSE <<"val", x + 32767>>
+                     [] v = 5 -> <<"err", 7>>
+                     [] v = 6 -> <<"err", 18>>
+                     [] v = 7 -> <<"val", (2 * x + 1) * 10>>
+                     [] v = 8 -> <<"val", 5 + x>>
+FnProg(v, x) ==
+    LET o == FnOutcome(v, x) IN
+    PE(<<Ln(5, <<[op |-> "ONERR", n |-> 100, col |-> TRUE]>>),
+         Ln(10, <<Let("A", C(5)), Let("K%", C(7))>>),
+         Ln(20, IF FnDefs(v) = <<>> THEN <<Prt(C(0))>> ELSE FnDefs(v)),
+         Ln(30, <<Prt(FnCall(v, x))>>),
+         Ln(40, <<Prt(V("A")), Prt(V("K%")), EndS>>),
+         Ln(100, <<Prt([k |-> "err"]), Prt(V("A")), Prt(V("K%")), [op |-> "RESUME", w |-> "NEXT", n |-> 0, col |-> TRUE]>>)>>,
+       [kind |-> "fn",
+        \* in every case - value or error - the caller's A and K% still hold 5 and 7
+        expect |-> (IF FnDefs(v) = <<>> THEN <<0>> ELSE <<>>) \o
+                   (IF o[1] = "val" THEN <<o[2], 5, 7>> ELSE <<o[2], 5, 7, 5, 7>>),
+        endk |-> "end", code |-> 0, line |-> 0])
+FnFamily == {FnProg(v, x) : v \in 1..8, x \in {0, 1, -3, 40000}}
+(* ---------------- C23: nothing survives CLEAR / RUN ---------------- *)
+ClearOrRun(r) == IF r = "clear" THEN <<Op("CLEAR")>> ELSE <<[op |-> "RUN", n |-> 300, col |-> TRUE]>>
+\* what: which piece of state is established before the reset and probed after it.  With RUN the probe lives at line 300.
+ResetProg(what, r) ==
+    LET probe == CASE what = "gosub" -> <<Op("RETURN") @@ [n |-> 0]>>
+                   [] what = "for"   -> <<[op |-> "NEXT", vs |-> <<>>, col |-> TRUE]>>
+                   [] what = "while" -> <<Op("WEND")>>
+                   [] what = "onerr" -> <<[op |-> "ERROR", e |-> C(5), col |-> TRUE]>>
+                   [] what = "data"  -> <<[op |-> "READ", vs |-> <<"J">>, col |-> TRUE], Prt(V("J"))>>
+                   [] what = "fn"    -> <<Prt(Call("FNA", <<C(1)>>))>>
+                   [] what = "vars"  -> <<Prt(V("A")), Prt(V("K%"))>>
+        setup == CASE what = "gosub" -> <<Ln(20, <<[op |-> "GOSUB", n |-> 100, col |-> TRUE]>>), Ln(30, <<EndS>>)>>
+                   [] what = "for"   -> <<Ln(20, <<[op |-> "FOR", v |-> "I", a |-> C(1), b |-> C(3), c |-> C(1), col |-> TRUE]>>), Ln(30, <<[op |-> "GOTO", n |-> 100, col |-> TRUE]>>), Ln(40, <<[op |-> "NEXT", vs |-> <<>>, col |-> TRUE]>>)>>
+                   [] what = "while" -> <<Ln(20, <<[op |-> "WHILE", e |-> C(1), col |-> TRUE]>>), Ln(30, <<[op |-> "GOTO", n |-> 100, col |-> TRUE]>>), Ln(40, <<Op("WEND")>>)>>
+                   [] what = "onerr" -> <<Ln(20, <<[op |-> "ONERR", n |-> 400, col |-> TRUE]>>), Ln(30, <<[op |-> "GOTO", n |-> 100, col |-> TRUE]>>)>>
+                   [] what = "data"  -> <<Ln(20, <<DataSt(<<11, 12>>), [op |-> "READ", vs |-> <<"J">>, col |-> TRUE]>>), Ln(30, <<[op |-> "GOTO", n |-> 100, col |-> TRUE]>>)>>
+                   [] what = "fn"    -> <<Ln(20, <<DefFn("FNA", <<"A">>, V("A"))>>), Ln(30, <<[op |-> "GOTO", n |-> 100, col |-> TRUE]>>)>>
+                   [] what = "vars"  -> <<Ln(20, <<Let("A", C(5)), Let("K%", C(3))>>), Ln(30, <<[op |-> "GOTO", n |-> 100, col |-> TRUE]>>)>>
+        pl == IF r = "clear" THEN 110 ELSE 300
+        o == CASE what = "gosub" -> <<"error", 3, <<1>>>> [] what = "for" -> <<"error", 1, <<1>>>> [] what = "while" -> <<"error", 30, <<1>>>>
+               [] what = "onerr" -> <<"error", 5, <<1>>>> [] what = "data" -> <<"end", 0, <<1, 11>>>> [] what = "fn" -> <<"error", 18, <<1>>>>
+               [] what = "vars" -> <<"end", 0, <<1, 0, 0>>>>
+    IN PE(<<Ln(10, <<Prt(C(1))>>)>> \o setup \o
+          <<Ln(100, ClearOrRun(r)), Ln(110, IF r = "clear" THEN probe ELSE <<EndS>>), Ln(120, <<EndS>>),
+            Ln(300, IF r = "clear" THEN <<EndS>> ELSE probe), Ln(310, <<EndS>>),
+            Ln(400, <<Prt(C(44)), EndS>>)>>,
+          [kind |-> "reset", expect |-> o[3], endk |-> o[1], code |-> o[2], line |-> IF o[1] = "error" THEN pl ELSE 0])
+ResetFamily == {ResetProg(w, r) : w \in {"gosub", "for", "while", "onerr", "data", "fn", "vars"}, r \in {"clear", "run"}}
 =============================================================================
